@@ -80,5 +80,10 @@ BOUNDS = ("full 56-bit operands for + - neg abs sign min max /\\ \\/ xor \\ << >
 OUTSIDE = ("values computed by dashu; bignum/rational operand arms; nested expressions (C03)")
 
 
+def mpost(results):
+    from vlib.mirsmt import c01
+    return c01.run()
+
+
 def run(tier):
-    return kprop.run("C01", HARNESSES, tier, ASSUME, ENCODED, BOUNDS, OUTSIDE)
+    return kprop.run("C01", HARNESSES, tier, ASSUME, ENCODED, BOUNDS, OUTSIDE, post=mpost)
